@@ -243,7 +243,26 @@ func ruleSTICKYSSA(p *Program, rep *Report) {
 		return cal != nil && p.InRepo(cal) && cal != writeAt && cal != execSync && fnPkgPath(cal) == modPath
 	}) {
 		h := c.Common().StaticCallee()
-		if len(callsIn(h, isIO)) > 0 && !helpers[h] {
+		if len(callsIn(h, isIO)) == 0 {
+			continue
+		}
+		// a helper that does the I/O unconditionally and returns its error (no error parameter): the call in
+		// writer.Run IS the I/O site — it has to be guarded there
+		hasErrParam := false
+		for _, par := range h.Params {
+			if errorLike(par.Type()) {
+				hasErrParam = true
+			}
+		}
+		res := h.Signature.Results()
+		if !hasErrParam && res.Len() > 0 && errorLike(res.At(res.Len()-1).Type()) {
+			if call, isCall := c.(*ssa.Call); isCall {
+				rep.Analysed(funcName(h))
+				sites = append(sites, site{run, call, h.Name()})
+				continue
+			}
+		}
+		if !helpers[h] {
 			helpers[h] = true
 			rep.Analysed(funcName(h))
 			collect(h)
